@@ -67,6 +67,15 @@ func (fs *LocalFS) CreateDir(n NodeDirectory) error {
 	return os.Chtimes(dst, n.MTime, n.MTime)
 }
 
+// SetDirTime sets the mtime of an existing directory.
+func (fs *LocalFS) SetDirTime(n NodeDirectory) error {
+	if n.MTime == time.Unix(0, 0) {
+		return nil
+	}
+	dst := filepath.Join(fs.Root, n.Name)
+	return os.Chtimes(dst, n.MTime, n.MTime)
+}
+
 func (fs *LocalFS) CreateFile(n NodeFile) error {
 	dst := filepath.Join(fs.Root, n.Name)
 
